@@ -561,8 +561,18 @@ Fixpoint find_sub (needle s : str) (i : nat) : option nat :=
 (* find_match_index: the exact stage is modelled; the later stages (smart quotes, Markdown-stripped target, fuzzy regex) are
    answered by the oracle list (the implementation's own answers for the calls whose exact stage failed, in call order) *)
 Definition fm := option (nat * nat).
-Definition find_match (text target : str) (orc : list fm) : fm * list fm :=
-  match find_sub target text 0 with
+(* an occurrence counts only when it touches text of the document itself (a span with a run): generated text (comment and change
+   metadata, style markers, paragraph separators) is part of the projection but resolves to no run (fix D54); and when it does not
+   reach into a tracked deletion, whose text cannot be edited again (fix D55) *)
+Definition covers (a b : nat) (x : ospan) : bool := o_real x && (a <? o_end x) && (o_start x <? b).
+Definition touches_real (sp : list ospan) (a b : nat) : bool :=
+  existsb (covers a b) sp && negb (existsb (fun x => covers a b x && is_some_nonempty (o_del x)) sp).
+Fixpoint find_real (sp : list ospan) (needle s : str) (i : nat) : option nat :=
+  if prefixb needle s && touches_real sp i (i + length needle) then Some i
+  else match s with [] => None | _ :: s' => find_real sp needle s' (S i) end.
+Definition find_on (sp : list ospan) (needle : str) : option nat := find_real sp needle (map_text sp) 0.
+Definition find_match (sp : list ospan) (target : str) (orc : list fm) : fm * list fm :=
+  match find_on sp target with
   | Some i => (Some (i, length target), orc)
   | None => match orc with a :: r => (a, r) | [] => (None, []) end
   end.
@@ -570,19 +580,19 @@ Definition find_match (text target : str) (orc : list fm) : fm * list fm :=
 (* raw-view match; when it is not exact, an exact accepted-view match wins (fix D44), then the raw-view approximate
    answer, then the accepted-view approximate answer (the accepted-view map is built once and cached) *)
 Definition locate (s : est) (target : str) (orc : list fm) : fm * bool * est * list fm :=
-  match find_sub target (map_text (s_raw s)) 0 with
+  match find_on (s_raw s) target with
   | Some i => (Some (i, length target), false, s, orc)
   | None =>
     let '(m1, orc1) := match orc with a :: r => (a, r) | [] => (None, []) end in
     let cmc := match s_clean s with Some _ => s_cmc s | None => d_comments (e_doc (s_eng s)) end in
     let cm := match s_clean s with Some c => c | None => build_map true cmc (e_doc (s_eng s)) end in
     let s' := {| s_eng := s_eng s; s_raw := s_raw s; s_clean := Some cm; s_cm0 := s_cm0 s; s_cmc := cmc |} in
-    match find_sub target (map_text cm) 0 with
+    match find_on cm target with
     | Some i => (Some (i, length target), true, s', orc1)
     | None =>
       match m1 with
       | Some x => (Some x, false, s', orc1)
-      | None => let '(m2, orc') := find_match (map_text cm) target orc1 in (m2, true, s', orc')
+      | None => let '(m2, orc') := find_match cm target orc1 in (m2, true, s', orc')
       end
     end
   end.
@@ -635,7 +645,7 @@ Definition overl (occ : list (nat * nat)) (a b : nat) : bool := existsb (fun r =
 Definition rebuild (s : est) : est := {| s_eng := s_eng s; s_raw := build_map false (s_cm0 s) (e_doc (s_eng s)); s_clean := None; s_cm0 := s_cm0 s; s_cmc := s_cmc s |}.
 (* result: state, applied, skipped, outside? *)
 (* the match ranges are planned once, on the map as it stands before any heuristic edit *)
-Fixpoint plan (text : str) (es : list edit) (orc : list fm) : list (edit * option (nat * nat)) * list fm :=
+Fixpoint plan (text : list ospan) (es : list edit) (orc : list fm) : list (edit * option (nat * nat)) * list fm :=
   match es with
   | [] => ([], orc)
   | ed :: r =>
@@ -687,7 +697,7 @@ Definition apply_edits (d : doc) (author ts : str) (edits : list edit) (orc : li
   | [] => (e_doc (s_eng s1), ap1, sk1, out1, nn1)
   | _ =>
     let sr := rebuild s1 in
-    let '(planned, orc1) := plan (map_text (s_raw sr)) (sort_len_desc heur) orc in
+    let '(planned, orc1) := plan (s_raw sr) (sort_len_desc heur) orc in
     let '(s2, ap2, sk2, out2, _, _, nn2) := fold_left step_heur planned (sr, ap1, sk1, out1, orc1, occ1, nn1) in
     (e_doc (s_eng s2), ap2, sk2, out2, nn2)
   end.
